@@ -359,7 +359,11 @@ func SRem(src S, states ...S) S {
 
 	for i := 0; i < len(states); i++ {
 		for ii := 0; ii < len(states[i]); ii++ {
-			s = slicesWithout(s, states[i][ii])
+			name := states[i][ii]
+			// every occurrence (lists with duplicates are legal input)
+			s = slices.DeleteFunc(s, func(el string) bool {
+				return el == name
+			})
 		}
 	}
 
